@@ -385,6 +385,55 @@ func runYield(c *Ctx, r *Reporter) {
 	// one of them (read, sleep) may hand control to the platform, which can raise the stop flag meanwhile. So the
 	// call of the built-in's implementation is dominated by the clear edge of a stop test that comes after the
 	// evaluation of the arguments.
+	// stopGuarded: site (in fn) is dominated by the clear edge of a stop test that comes after the last call of fn that
+	// reaches eval; a helper that neither evaluates nor tests before the site (callBuiltin(funcCall, b, args)) is
+	// guarded when each of its call sites is. eval itself yields after its own stop test, so a function that is entered
+	// from the dispatch without any test does not count as guarded.
+	var stopGuarded func(fn *ssa.Function, site ssa.Instruction, depth int) bool
+	stopGuarded = func(fn *ssa.Function, site ssa.Instruction, depth int) bool {
+		var lastEval *ssa.Call
+		for _, b2 := range fn.Blocks {
+			for _, i2 := range b2.Instrs {
+				c2, ok := i2.(*ssa.Call)
+				if !ok || ssa.Instruction(c2) == site {
+					continue
+				}
+				if sc := c2.Call.StaticCallee(); sc != nil && ei.reach[sc] && instrDominates(c2, site) {
+					if lastEval == nil || instrDominates(lastEval, c2) {
+						lastEval = c2
+					}
+				}
+			}
+		}
+		b := site.Block()
+		for d := b; d != nil; d = d.Idom() {
+			id := d.Idom()
+			if id == nil || len(id.Instrs) == 0 {
+				continue
+			}
+			ifi, ok := id.Instrs[len(id.Instrs)-1].(*ssa.If)
+			if !ok || !loadsField(ifi.Cond, "Stopped") {
+				continue
+			}
+			ld := ifi.Cond.(ssa.Instruction)
+			if edgeDominates(id, 1, b) && (lastEval == nil || instrDominates(lastEval, ld)) {
+				return true
+			}
+		}
+		if lastEval != nil || depth >= 3 {
+			return false
+		}
+		sites := 0
+		for _, caller := range ei.funcs {
+			for _, ci := range callsTo(caller, fn) {
+				sites++
+				if !stopGuarded(caller, ci, depth+1) {
+					return false
+				}
+			}
+		}
+		return sites > 0
+	}
 	for _, fn := range ei.funcs {
 		k := 0
 		for _, b := range fn.Blocks {
@@ -398,39 +447,7 @@ func runYield(c *Ctx, r *Reporter) {
 				}
 				k++
 				construct := fmt.Sprintf("%s#builtin-call[%d]:stop-test-after-arguments", ssaQName(fn), k)
-				// the last call that can reach eval and dominates this call
-				var lastEval *ssa.Call
-				for _, b2 := range fn.Blocks {
-					for _, i2 := range b2.Instrs {
-						c2, ok := i2.(*ssa.Call)
-						if !ok || c2 == call {
-							continue
-						}
-						if sc := c2.Call.StaticCallee(); sc != nil && ei.reach[sc] && instrDominates(c2, call) {
-							if lastEval == nil || instrDominates(lastEval, c2) {
-								lastEval = c2
-							}
-						}
-					}
-				}
-				good := false
-				for d := b; d != nil; d = d.Idom() {
-					id := d.Idom()
-					if id == nil || len(id.Instrs) == 0 {
-						continue
-					}
-					ifi, ok := id.Instrs[len(id.Instrs)-1].(*ssa.If)
-					if !ok || !loadsField(ifi.Cond, "Stopped") {
-						continue
-					}
-					ld := ifi.Cond.(ssa.Instruction)
-					if edgeDominates(id, 1, b) && (lastEval == nil || instrDominates(lastEval, ld)) {
-						good = true
-					}
-				}
-				if lastEval == nil {
-					good = true // nothing was evaluated between eval's own stop test and the built-in
-				}
+				good := stopGuarded(fn, call, 0)
 				r.Check(good, construct, p.Rel(instrPos(call)), "the stop flag is tested between the evaluation of the arguments and the built-in's effect",
 					"the built-in's implementation is called without a test of the stop flag after its arguments were evaluated: an argument such as `read` or `sleep` hands control to the platform, "+
 						"which may raise the flag — `print (read)` then still prints (an effect that the uninterrupted run does not have) and the run does not end with ErrStopped")
@@ -725,6 +742,11 @@ func derivesFromErr(v, errVal ssa.Value, depth int) bool {
 	case *ssa.ChangeInterface:
 		return derivesFromErr(x.X, errVal, depth+1)
 	case *ssa.Call:
+		// cmp.Or(a, b, …) yields its first non-zero argument: the pending error survives only in first position
+		firstOnly := false
+		if sc := x.Call.StaticCallee(); sc != nil && sc.Pkg == nil && sc.Origin() != nil && sc.Origin().Pkg != nil && sc.Origin().Pkg.Pkg.Path() == "cmp" && sc.Origin().Name() == "Or" {
+			firstOnly = true
+		}
 		for _, a := range x.Call.Args {
 			if derivesFromErr(a, errVal, depth+1) {
 				return true
@@ -734,6 +756,9 @@ func derivesFromErr(v, errVal ssa.Value, depth int) bool {
 				if al, ok := sl.X.(*ssa.Alloc); ok {
 					for _, ref := range *al.Referrers() {
 						if ia, ok := ref.(*ssa.IndexAddr); ok {
+							if k, isK := ia.Index.(*ssa.Const); firstOnly && !(isK && k.Value != nil && k.Value.ExactString() == "0") {
+								continue
+							}
 							for _, r2 := range *ia.Referrers() {
 								if st, ok := r2.(*ssa.Store); ok && derivesFromErr(st.Val, errVal, depth+1) {
 									return true
